@@ -254,6 +254,8 @@ def dfs_workloads(profile, tier):
                             out.append((dict(wl, fn_fail={str(pos): exc}, catch='VErrA'), min(k, 1)))
                         # a catch set that lists a BaseException-only class: dropped like any other listed class
                         out.append((dict(wl, fn_fail={str(pos): 'VBase'}, catch=['VBase', 'VErrA']), min(k, 1)))
+                    if wl['kind'] == 'pf' and not wl.get('with_key') and n >= 2:
+                        out.append((dict(wl, src='keyzip_concat', fn_fail={str(pos): 'KeyError'}), min(k, 1)))
                     if wl['kind'] in ('lpm', 'pm') or (wl['kind'] == 'pf' and wl['workers'] > 1):
                         # the function raises StopIteration (a bare next() inside it): whatever it is turned into, the
                         # stream must not end silently there
